@@ -357,10 +357,13 @@ fn main() {
     write_if_changed(
         &out.join("zoorun/Cargo.toml"),
         &format!(
-            "[package]\nname = \"zoorun\"\nversion = \"0.1.0\"\nedition = \"2021\"\n\n[features]\nddesc = [\"monitors/ddesc\", {ddesc}]\n\n[dependencies]\nasn1rs = {{ path = \"/repo\", default-features = false, features = [\"macros\", \"model\", \"protobuf\"] }}\nmonitors = {{ path = \"{h}/monitors\" }}\nvgen = {{ path = \"{h}/vgen\" }}\nserde_json = \"1\"\n{deps}",
+            "[package]\nname = \"zoorun\"\nversion = \"0.1.0\"\nedition = \"2021\"\n\n[[bin]]\nname = \"{binname}\"\npath = \"src/main.rs\"\n\n[features]\nddesc = [\"monitors/ddesc\", {ddesc}]\n\n[dependencies]\nasn1rs = {{ path = \"/repo\", default-features = false, features = [\"macros\", \"model\", \"protobuf\"] }}\nmonitors = {{ path = \"{h}/monitors\" }}\nvgen = {{ path = \"{h}/vgen\" }}\nserde_json = \"1\"\n{deps}",
             ddesc = ddesc_feats,
             h = harness,
-            deps = deps
+            deps = deps,
+            // the cargo target directory is shared by the zoos of all (tier, seed): a binary name of its own keeps the
+            // uplifted executables apart
+            binname = format!("zoorun_{}_{}", tier, seed)
         ),
     );
     let template = std::fs::read_to_string(format!("{}/zoorun-template/main.rs", harness)).expect("zoorun template");
